@@ -546,7 +546,8 @@ def render(prog, rng=None, style="plain"):
 
 WS_CHARS = [" ", "  ", "\t", "\n", "\r\n", "\n\n", " \n ", "\u00a0", "\u2003", "\x0c", "\x0b", "\u2028", "\r"]
 COMMENT_BODIES = ["", " c ", "x", "'", '"', "\"unterminated", "def e { }", "return", "//", "/", "*", "**", "/ *", "* /",
-                  "/*", "if x == 1", "}", "{", "é中", "\\", "a*b/c", "*/*"[:0] + "nested /* open", "--", "#", "weighted 0"]
+                  "/*", "if x == 1", "}", "{", "é中", "\\", "a*b/c", "*/*"[:0] + "nested /* open", "--", "#", "weighted 0",
+                  'old arm:\x0c, "B" weighted 1', "x\x0b}", "a\x1cb", "n\x85 return", "u\u2028 def", "p\u2029q", "cr\rdef e {", "\x1d\x1e"]
 
 
 def rand_trivia(rng, must=False, allow_empty=True):
